@@ -6,7 +6,7 @@
 set -u
 PATCH=$1; NAME=$2; shift 2
 export GOFLAGS=-mod=mod GOPROXY=off GOSUMDB=off GOTOOLCHAIN=local
-W=/tmp/sc_$NAME
+W=/tmp/sc_${SCPFX:-}$NAME
 git -C /repo worktree prune
 rm -rf "$W"; git -C /repo worktree add -q --detach "$W" || exit 2
 cd "$W"
